@@ -171,6 +171,10 @@ fn gen_sets(prop: &str, tier: &str) -> Vec<ProgSet> {
                     }
                 }
             }
+            // the in-place branch of make_mut / make_unique / OffsetArc::make_mut is a uniqueness grant too
+            for (k, op) in [(Kind::A, MakeMutW), (Kind::A, MakeUniqueW), (Kind::O, MakeMutW)] {
+                writers.push(Program { init: k, ops: vec![op] });
+            }
             writers.push(Program { init: Kind::MS, ops: vec![DepWriteW] });
             writers.push(Program { init: Kind::MS, ops: vec![DepWriteW, DepWriteW] });
             writers.push(Program { init: Kind::T, ops: vec![WithArcMutW] });
@@ -192,8 +196,8 @@ fn gen_sets(prop: &str, tier: &str) -> Vec<ProgSet> {
             for w in &writers {
                 let thin = matches!(w.init, Kind::T | Kind::F);
                 let rs = readers(thin, w.init == Kind::MS);
-                let fact = format!("{}=true|{}=1", fact_name(w.ops[0]), fact_name(w.ops[0]));
-                let nofact = format!("{}=false|{}=0", fact_name(w.ops[0]), fact_name(w.ops[0]));
+                let fact = format!("{}=true|{}=1|{}=in_place", fact_name(w.ops[0]), fact_name(w.ops[0]), fact_name(w.ops[0]));
+                let nofact = format!("{}=false|{}=0|{}=copied", fact_name(w.ops[0]), fact_name(w.ops[0]), fact_name(w.ops[0]));
                 for r in &rs {
                     sets.push(ProgSet { programs: vec![w.clone(), r.clone()], writer: Some(0), main_reads: false, readers_see_only_v0: true, bound: None, expect_facts: vec![fact.clone(), nofact.clone()] });
                 }
@@ -282,6 +286,7 @@ fn fact_name(op: TOp) -> &'static str {
         TOp::IsUniqueGetMutW => "is_unique_get_mut",
         TOp::WithArcMutW => "with_arc_mut_get_mut",
         TOp::DepWriteW => "dep_write",
+        TOp::MakeMutW | TOp::MakeUniqueW => "make_mut",
         _ => "?",
     }
 }
